@@ -311,14 +311,14 @@ class Body:
         if self._pred is None:
             self._pred = [[] for _ in range(self.n)]
             for i in range(self.n):
-                if self.blocks[i]["cleanup"]:
+                if self.blocks[i].get("cleanup", False):
                     continue
                 for s in self.succ(i):
                     self._pred[s].append(i)
         return self._pred[bb]
 
     def is_cleanup(self, bb):
-        return self.blocks[bb]["cleanup"]
+        return self.blocks[bb].get("cleanup", False)
 
     def reach(self, starts, avoid=(), avoid_edges=()):
         """Blocks reachable from `starts` (inclusive) along normal edges without entering `avoid`
@@ -779,7 +779,7 @@ class Body:
             out.append("  let _%d: %s%s%s" % (i, l["ty"], "  // " + l["name"] if l.get("name") else "", extra))
         r = self.reachable()
         for i, b in enumerate(self.blocks):
-            out.append("  bb%d%s%s:" % (i, " (cleanup)" if b["cleanup"] else "", "" if i in r or b["cleanup"] else " (unreachable)"))
+            out.append("  bb%d%s%s:" % (i, " (cleanup)" if b.get("cleanup", False) else "", "" if i in r or b.get("cleanup", False) else " (unreachable)"))
             for s in b["stmts"]:
                 if s["k"] == "assign":
                     out.append("    %s = %s   // L%d" % (place_str(s["lhs"]), rv_str(s["rv"]), s.get("line", 0)))
